@@ -62,7 +62,7 @@ def py(prop, nruns, base):
 
 
 def main():
-    args = [a for a in sys.argv[1:] if not a.startswith("--")]
+    args = [a for a in sys.argv[1:] if a in ("C18", "C19", "C20")]
     nruns = int(sys.argv[sys.argv.index("--runs") + 1]) if "--runs" in sys.argv else 10000
     props = args or ["C18", "C19", "C20"]
     base = int(os.environ.get("VERIF_SEED", "1"))
